@@ -193,4 +193,4 @@ h!(q_real_history_offset, unwrap_real_history::<OffsetArc<Dt>>());
 h!(q_real_history_union2, unwrap_real_history::<U2<Dt>>());
 h!(r0_real_history_raw, unwrap_real_history::<Raw<Dt>>());
 h!(r1_real_history_union1, unwrap_real_history::<U1<Dt>>());
-h!(r2_real_history_swap, unwrap_real_history::<Swp<Dt>>());
+h!(q_real_history_swap, unwrap_real_history::<Swp<Dt>>());
